@@ -63,12 +63,12 @@
 (*     ElicitationCompleteHandler sees every well-formed completion.          *)
 (*                                                                            *)
 (* DEVIATIONS of the code from this, modelled as the code is (Expected) and   *)
-(* named in Deviation(c):                                                     *)
-(*  D1 `elicitation/create` / `notifications/elicitation/complete` are        *)
-(*     registered missingParamsOK, but Client.elicit (when a handler is set)  *)
-(*     and callElicitationCompleteHandler (always) dereference req.Params: a  *)
-(*     message without params (or params null) is a nil dereference in a      *)
-(*     jsonrpc2 handler goroutine - the process dies.             (breaks A1) *)
+(* named in Deviation(c) (D2, D3):                                            *)
+(*  D1 (REPAIRED in /repo 69d58c9; Expected follows the repair) both methods  *)
+(*     are registered missingParamsOK and used to dereference nil req.Params  *)
+(*     - the client process died.  Now elicitation/create without params is   *)
+(*     answered -32602 (after the "no handler" answer) and the completion     *)
+(*     notification without params only reaches the user's handler.           *)
 (*  D2 validateElicitStringProperty returns as soon as it has seen `enum` /   *)
 (*     `oneOf`: validateDefaultProperty[string] is skipped, so a string enum  *)
 (*     whose default is not a string reaches the handler.         (breaks A3) *)
@@ -286,7 +286,7 @@ ValSat(c) == CASE c.sch.root = "objempty" -> TRUE
 \* Client.elicit; returns an outcome with sent = s
 ClientElicit(c, s, wiremode) ==
   IF ~c.handler THEN ErrOut(s, 0, "ip")
-  ELSE IF c.params # "normal" THEN [Crash EXCEPT !.sent = s]                                    \* D1
+  ELSE IF c.params # "normal" THEN ErrOut(s, 0, "ip")                  \* 69d58c9: missing required "params"
   ELSE LET m == IF wiremode = "unset" THEN "form" ELSE wiremode IN
   CASE m = "form" ->
          IF c.url THEN ErrOut(s, 0, "ip")
@@ -340,8 +340,8 @@ ServerElicitRawClient(c) ==
 
 Expected(c) ==
   CASE c.kind = "notif" ->
-         IF c.params # "normal" THEN Crash
-         ELSE Out(FALSE, TRUE, 0, "result", "none", "", "nil", "absent", FALSE, c.uh)
+         \* without params (69d58c9) the waiter lookup is skipped; the user's handler is called all the same
+         Out(FALSE, TRUE, 0, "result", "none", "", "nil", "absent", FALSE, c.uh)
     [] c.path \in {"d0618", "d1125", "d0728"} -> ServerElicit(c)
     [] c.path = "m1125" -> LET r == ServerElicit(c) IN IF r.ret = "error" THEN [r EXCEPT !.code = "other"] ELSE r
     [] c.path = "m0728" -> OverWire(ClientElicit(c, FALSE, EffMode(c)))
@@ -390,8 +390,7 @@ Holds(c, o) == \A n \in Clauses : Clause(n, c, o)
 
 \* The named deviations: exactly where the code-shaped Expected breaks a property
 Deviation(c) ==
-  CASE c.params # "normal" /\ (c.kind = "notif" \/ c.handler) -> "D1"
-    [] /\ c.kind = "schema" /\ SDKClient(c) /\ c.sch.root \in {"object", "notype"} /\ c.sch.p.ty = "string"
+  CASE /\ c.kind = "schema" /\ SDKClient(c) /\ c.sch.root \in {"object", "notype"} /\ c.sch.p.ty = "string"
        /\ c.sch.p.def = "badtype" /\ CodeSchemaOK(c.sch) -> "D2"
     [] /\ c.kind = "schema" /\ c.req /\ c.res = Res("accept", "nil") /\ CodeSchemaOK(c.sch) /\ DefSat(c.sch.p) -> "D3"
     [] OTHER -> "none"
